@@ -8,7 +8,12 @@
    Biopython's SeqRecord slicing (keep the features that lie completely inside, shift them by
    -start, shallow-copy the qualifiers) and SeqRecord addition are transcribed from Biopython
    1.81 and are checked by the correspondence run only.  offset_location, location_bridges_origin
-   come from Common/Loc.v (C04).  No proofs here. *)
+   come from Common/Loc.v (C04).
+   The annotations of the parent SeqRecord (a dict holding the structured_comment dict, which holds
+   the antiSMASH-Data dict) are modelled as objects on a small heap, because they are shared by
+   reference between the full record and whatever _build_annotations makes of them: copy.deepcopy,
+   dict.setdefault and item assignment are transcribed as heap operations, and the parent's
+   annotations after the call are read back from the heap.  No proofs here. *)
 From ASV Require Export Loc.
 
 (* feature type codes used by the flat encoding; every other type is "other" *)
@@ -233,6 +238,190 @@ Definition write_to_genbank (r : rdata) (sq : list Z) (feats : list feat) : res 
   let annot := build_annotations r in
   Ok (mkOut sq' adjusted annot (restore feats original_locations)).
 
+(* ---------- the parent's annotations: nested dicts shared by reference ---------- *)
+(* key codes of the flat encoding; every other key is a code >= 10 given by the harness *)
+Definition K_sc := 1.        (* "structured_comment" *)
+Definition K_asdata := 2.    (* "antiSMASH-Data" *)
+Definition K_note := 3.      (* "NOTE" *)
+Definition K_ostart := 4.    (* "Orig. start" *)
+Definition K_oend := 5.      (* "Orig. end" *)
+(* a string value of a structured-comment table is (tag, n): (0, code) any other string,
+   (1, kind) one of the two NOTE texts of _build_annotations (0 plain, 1 cross-origin),
+   (2, n) str(n) *)
+Definition V_note := 1.
+Definition V_int := 2.
+Definition sval := (Z * Z)%type.
+
+(* tree view (what the flat encoding carries and what is compared): a table is an ordered
+   str -> str dict, a structured comment an ordered dict of tables, the annotations an ordered dict
+   whose values are either immutable (strings, numbers, lists nobody writes to: opaque codes) or a
+   structured comment *)
+Definition table := list (Z * sval).
+Definition scomment := list (Z * table).
+Inductive topv := TOpaque (v : Z) | TSc (s : scomment).
+Definition annots := list (Z * topv).
+
+(* heap view: every dict is an object with an address (its position in the heap) *)
+Inductive hval := HOpaque (v : Z) | HRef (a : nat).
+Inductive obj :=
+| OTop (d : list (Z * hval))
+| OSc (d : list (Z * nat))
+| OTab (d : table).
+Definition heap := list obj.
+
+Definition alloc (h : heap) (o : obj) : heap * nat := (h ++ [o], length h).
+
+Fixpoint update (h : heap) (a : nat) (o : obj) : heap :=
+  match h, a with
+  | [], _ => []
+  | _ :: r, O => o :: r
+  | x :: r, S a' => x :: update r a' o
+  end.
+
+(* Python dict: d.get(k), d[k] = v (an existing key keeps its position, a new key goes last) *)
+Fixpoint assoc {V} (k : Z) (d : list (Z * V)) : option V :=
+  match d with
+  | [] => None
+  | (k', v) :: r => if k' =? k then Some v else assoc k r
+  end.
+Fixpoint dict_set {V} (k : Z) (v : V) (d : list (Z * V)) : list (Z * V) :=
+  match d with
+  | [] => [(k, v)]
+  | (k', v') :: r => if k' =? k then (k', v) :: r else (k', v') :: dict_set k v r
+  end.
+
+(* laying a tree out on the heap (how the record's annotations come to be: add_antismash_comments,
+   the GenBank parser) and reading the tree below an address back *)
+Fixpoint load_sc (h : heap) (s : scomment) : heap * list (Z * nat) :=
+  match s with
+  | [] => (h, [])
+  | (k, t) :: r =>
+    let '(h1, a) := alloc h (OTab t) in
+    let '(h2, d) := load_sc h1 r in (h2, (k, a) :: d)
+  end.
+Fixpoint load_entries (h : heap) (an : annots) : heap * list (Z * hval) :=
+  match an with
+  | [] => (h, [])
+  | (k, TOpaque v) :: r =>
+    let '(h1, d) := load_entries h r in (h1, (k, HOpaque v) :: d)
+  | (k, TSc s) :: r =>
+    let '(h1, ds) := load_sc h s in
+    let '(h2, a) := alloc h1 (OSc ds) in
+    let '(h3, d) := load_entries h2 r in (h3, (k, HRef a) :: d)
+  end.
+Definition load_top (h : heap) (an : annots) : heap * nat :=
+  let '(h1, d) := load_entries h an in alloc h1 (OTop d).
+
+Fixpoint read_sc (h : heap) (d : list (Z * nat)) : option scomment :=
+  match d with
+  | [] => Some []
+  | (k, a) :: r =>
+    match nth_error h a, read_sc h r with
+    | Some (OTab t), Some s => Some ((k, t) :: s)
+    | _, _ => None
+    end
+  end.
+Fixpoint read_entries (h : heap) (d : list (Z * hval)) : option annots :=
+  match d with
+  | [] => Some []
+  | (k, HOpaque v) :: r =>
+    match read_entries h r with Some x => Some ((k, TOpaque v) :: x) | None => None end
+  | (k, HRef a) :: r =>
+    match nth_error h a with
+    | Some (OSc ds) =>
+      match read_sc h ds, read_entries h r with
+      | Some s, Some x => Some ((k, TSc s) :: x)
+      | _, _ => None
+      end
+    | _ => None
+    end
+  end.
+Definition read_top (h : heap) (a : nat) : option annots :=
+  match nth_error h a with Some (OTop d) => read_entries h d | _ => None end.
+
+(* copy.deepcopy of the annotations: a new object for every dict below the address (the structure is
+   a tree: no dict is reachable twice).  dict(x) - the shallow copy - makes a new object for the
+   outermost dict only; it is NOT what the code does and is here for the example in Theorems.v that
+   shows what the deep copy is needed for *)
+Definition deepcopy (h : heap) (a : nat) : res (heap * nat) :=
+  match read_top h a with
+  | Some an => Ok (load_top h an)
+  | None => Err E_Type
+  end.
+Definition dict_copy (h : heap) (a : nat) : res (heap * nat) :=
+  match nth_error h a with
+  | Some (OTop d) => Ok (alloc h (OTop d))
+  | _ => Err E_Type
+  end.
+
+Definition get_top (h : heap) (a : nat) : res (list (Z * hval)) :=
+  match nth_error h a with Some (OTop d) => Ok d | _ => Err E_Type end.
+Definition get_sc (h : heap) (a : nat) : res (list (Z * nat)) :=
+  match nth_error h a with Some (OSc d) => Ok d | _ => Err E_Type end.
+Definition tab_set (h : heap) (a : nat) (k : Z) (v : sval) : res heap :=
+  match nth_error h a with
+  | Some (OTab t) => Ok (update h a (OTab (dict_set k v t)))
+  | _ => Err E_Type
+  end.
+
+(* _build_annotations on the heap; orig = address of record.annotations; returns the heap afterwards
+   and the address of the region record's annotations *)
+Definition build_annotations_with (copy : heap -> nat -> res (heap * nat))
+    (r : rdata) (h : heap) (orig : nat) : res (heap * nat) :=
+  (* annotations = deepcopy(original_annotations) *)
+  do c <- copy h orig;
+  let '(h1, top) := c in
+  (* annotations.setdefault("structured_comment", {}) *)
+  do d <- get_top h1 top;
+  let h2 := match assoc K_sc d with
+            | Some _ => h1
+            | None => let '(h', a) := alloc h1 (OSc []) in
+                      update h' top (OTop (d ++ [(K_sc, HRef a)]))
+            end in
+  (* annotations["structured_comment"].setdefault("antiSMASH-Data", {}) *)
+  do d2 <- get_top h2 top;
+  do sc <- (match assoc K_sc d2 with
+            | Some (HRef a) => Ok a
+            | Some (HOpaque _) => Err E_Attribute      (* not a dict: no setdefault *)
+            | None => Err E_Key
+            end);
+  do ds <- get_sc h2 sc;
+  let h3 := match assoc K_asdata ds with
+            | Some _ => h2
+            | None => let '(h', a) := alloc h2 (OTab []) in
+                      update h' sc (OSc (ds ++ [(K_asdata, a)]))
+            end in
+  (* antismash_comment = annotations["structured_comment"]["antiSMASH-Data"] *)
+  do ds3 <- get_sc h3 sc;
+  do tab <- (match assoc K_asdata ds3 with Some a => Ok a | None => Err E_Key end);
+  do h4 <- tab_set h3 tab K_note (V_note, if crosses r then 1 else 0);
+  do h5 <- tab_set h4 tab K_ostart (V_int, rstart r);
+  do h6 <- tab_set h5 tab K_oend (V_int, rend r);
+  Ok (h6, top).
+
+Definition build_annotations_heap := build_annotations_with deepcopy.
+
+(* the annotations of the region record (as far as they reach the file: its structured comment) and
+   the annotations of the parent record after the call *)
+Record annot_out := mkAO { ao_file : option annots; ao_parent : option annots }.
+
+Definition write_annotations_with copy (r : rdata) (an : annots) : res annot_out :=
+  let '(h0, root) := load_top [] an in
+  do x <- build_annotations_with copy r h0 root;
+  let '(h1, top) := x in
+  Ok (mkAO (read_top h1 top) (read_top h1 root)).
+Definition write_annotations := write_annotations_with deepcopy.
+
+(* write_to_genbank on the whole bio-level record: features first (an exception there comes before
+   the annotations are built), then the annotations *)
+Record output2 := mkOut2 { o2_base : output; o2_ann : annot_out }.
+
+Definition write_to_genbank_rec (r : rdata) (sq : list Z) (feats : list feat) (an : annots)
+  : res output2 :=
+  do o <- write_to_genbank r sq feats;
+  do a <- write_annotations r an;
+  Ok (mkOut2 o a).
+
 (* ---------- decidable specification, evaluated on an output (model's or implementation's) ---------- *)
 (* a region is never empty: start = end can only be the whole ring, cut at start *)
 Definition out_len (r : rdata) (N : Z) : Z :=
@@ -338,6 +527,50 @@ Definition guard_flags (r : rdata) (sq : list Z) (feats : list feat) : list bool
     true;
     true ].
 
+(* ---------- specification of the annotations (stated on the trees, no heap) ---------- *)
+(* the structured comment the region file must carry: the parent's, with NOTE / Orig. start /
+   Orig. end set in its antiSMASH-Data table (made when missing) *)
+Definition parent_sc (an : annots) : scomment :=
+  match assoc K_sc an with Some (TSc s) => s | _ => [] end.
+Definition expected_table (r : rdata) (t : table) : table :=
+  dict_set K_oend (V_int, rend r)
+    (dict_set K_ostart (V_int, rstart r)
+      (dict_set K_note (V_note, if crosses r then 1 else 0) t)).
+Definition expected_sc (r : rdata) (an : annots) : scomment :=
+  let s := parent_sc an in
+  dict_set K_asdata (expected_table r (match assoc K_asdata s with Some t => t | None => [] end)) s.
+
+(* ... and the region record's annotations as a whole: the parent's with that structured comment *)
+Definition expected_annots (r : rdata) (an : annots) : annots :=
+  dict_set K_sc (TSc (expected_sc r an)) an.
+
+Definition sval_eqb (a b : sval) : bool := (fst a =? fst b) && (snd a =? snd b).
+Definition table_eqb (a b : table) : bool :=
+  list_eqb (fun x y => (fst x =? fst y) && sval_eqb (snd x) (snd y)) a b.
+Definition sc_eqb (a b : scomment) : bool :=
+  list_eqb (fun x y => (fst x =? fst y) && table_eqb (snd x) (snd y)) a b.
+Definition topv_eqb (a b : topv) : bool :=
+  match a, b with
+  | TOpaque x, TOpaque y => x =? y
+  | TSc x, TSc y => sc_eqb x y
+  | _, _ => false
+  end.
+Definition annots_eqb (a b : annots) : bool :=
+  list_eqb (fun x y => (fst x =? fst y) && topv_eqb (snd x) (snd y)) a b.
+
+Definition file_sc (a : annot_out) : option scomment :=
+  match ao_file a with Some an => Some (parent_sc an) | None => None end.
+
+(* the six flags above, then [the file's structured comment is the expected one; the parent's
+   annotations are what they were] *)
+Definition spec_flags2 (r : rdata) (sq : list Z) (feats : list feat) (an : annots) (o : output2)
+  : list bool :=
+  spec_flags r sq feats (o2_base o) ++
+  [ match file_sc (o2_ann o) with Some s => sc_eqb s (expected_sc r an) | None => false end;
+    match ao_parent (o2_ann o) with Some a => annots_eqb a an | None => false end ].
+Definition guard_flags2 (r : rdata) (sq : list Z) (feats : list feat) : list bool :=
+  guard_flags r sq feats ++ [true; true].
+
 (* ---------- flat encoding ---------- *)
 Definition dFeat : dec feat := fun l =>
   match l with
@@ -402,8 +635,54 @@ Definition dOut : dec output := fun l =>
 
 Definition dInput : dec (rdata * list Z * list feat) := dPair (dPair dRdata (dList dZ)) (dList dFeat).
 
-(* fn 1: write_to_genbank.  fn 101: payload followed by an encoded result (0 :: output);
-   answers [all flags hold or are outside their guard] ++ flags ++ guards *)
+(* annotations: table = list of (key, tag, n); structured comment = list of (key, table);
+   top-level value = 0 :: code | 1 :: structured comment *)
+Definition dSval : dec sval := dPair dZ dZ.
+Definition dTable : dec table := dList (dPair dZ dSval).
+Definition dSc : dec scomment := dList (dPair dZ dTable).
+Definition dTopv : dec topv := fun l =>
+  match l with
+  | 0 :: v :: r => Some (TOpaque v, r)
+  | 1 :: r => match dSc r with Some (s, r') => Some (TSc s, r') | None => None end
+  | _ => None
+  end.
+Definition dAnnots : dec annots := dList (dPair dZ dTopv).
+
+Definition eTable (t : table) : list Z := eList (fun e => [fst e; fst (snd e); snd (snd e)]) t.
+Definition eSc (s : scomment) : list Z := eList (fun e => fst e :: eTable (snd e)) s.
+Definition eTopv (v : topv) : list Z :=
+  match v with TOpaque x => [0; x] | TSc s => 1 :: eSc s end.
+Definition eAnnots (a : annots) : list Z := eList (fun e => fst e :: eTopv (snd e)) a.
+
+Definition eOut2 (o : output2) : list Z :=
+  eOut (o2_base o) ++ eOpt eSc (file_sc (o2_ann o)) ++ eOpt eAnnots (ao_parent (o2_ann o)).
+
+(* the implementation's side: the structured comment read from the file, the parent's annotations
+   after the call *)
+Definition dOut2 : dec output2 := fun l =>
+  match dOut l with
+  | Some (o, r1) =>
+    match dOpt dSc r1 with
+    | Some (fsc, r2) =>
+      match dOpt dAnnots r2 with
+      | Some (pa, r3) =>
+        Some (mkOut2 o (mkAO (match fsc with Some s => Some [(K_sc, TSc s)] | None => None end) pa), r3)
+      | None => None
+      end
+    | None => None
+    end
+  | None => None
+  end.
+
+Definition dInput2 : dec (rdata * list Z * list feat * annots) := dPair dInput dAnnots.
+
+Definition verdict (fl gd : list bool) : list Z :=
+  eBool (forallb (fun x => x) (map (fun fg => fst fg || negb (snd fg)) (combine fl gd)))
+  ++ flat_map eBool fl ++ flat_map eBool gd.
+
+(* fn 1: write_to_genbank on sequence and features.  fn 101: payload followed by an encoded result
+   (0 :: output); answers [all flags hold or are outside their guard] ++ flags ++ guards.
+   fn 2 / 102: the same with the parent's annotations (write_to_genbank_rec, eight flags) *)
 Definition run_C12 (fn : Z) (l : list Z) : list Z :=
   match fn with
   | 1 => match dInput l with
@@ -413,11 +692,19 @@ Definition run_C12 (fn : Z) (l : list Z) : list Z :=
   | 101 => match dInput l with
            | Some ((r, sq, feats), 0 :: rest) =>
              match dOut rest with
-             | Some (o, []) =>
-               let fl := spec_flags r sq feats o in
-               let gd := guard_flags r sq feats in
-               eBool (forallb (fun x => x) (map (fun fg => fst fg || negb (snd fg)) (combine fl gd)))
-               ++ flat_map eBool fl ++ flat_map eBool gd
+             | Some (o, []) => verdict (spec_flags r sq feats o) (guard_flags r sq feats)
+             | _ => bad_input
+             end
+           | _ => bad_input
+           end
+  | 2 => match dInput2 l with
+         | Some ((r, sq, feats, an), []) => eRes eOut2 (write_to_genbank_rec r sq feats an)
+         | _ => bad_input
+         end
+  | 102 => match dInput2 l with
+           | Some ((r, sq, feats, an), 0 :: rest) =>
+             match dOut2 rest with
+             | Some (o, []) => verdict (spec_flags2 r sq feats an o) (guard_flags2 r sq feats)
              | _ => bad_input
              end
            | _ => bad_input
